@@ -40,14 +40,50 @@ func (w *writer) open() error {
 		return err
 	}
 
+	// A writer that was killed in the middle of a line leaves the file without
+	// a final newline. The next status must start on a line of its own, or it
+	// would run into the remains and neither could be read back.
+	torn, err := lacksFinalNewline(w.target)
+	if err != nil {
+		return err
+	}
+
 	file, err := util.OpenOrCreateFile(w.target)
 	if err != nil {
 		return err
+	}
+	if torn {
+		if _, err := file.Write([]byte{'\n'}); err != nil {
+			_ = file.Close()
+			return err
+		}
 	}
 
 	w.file = file
 	w.writer = bufio.NewWriter(file)
 	return nil
+}
+
+// lacksFinalNewline reports whether the file exists, is not empty and does
+// not end with a newline.
+func lacksFinalNewline(path string) (bool, error) {
+	f, err := os.Open(path)
+	if errors.Is(err, os.ErrNotExist) {
+		return false, nil
+	}
+	if err != nil {
+		return false, err
+	}
+	defer f.Close()
+	fi, err := f.Stat()
+	if err != nil || fi.Size() == 0 {
+		return false, err
+	}
+	last := make([]byte, 1)
+	if _, err := f.ReadAt(last, fi.Size()-1); err != nil {
+		return false, err
+	}
+	return last[0] != '\n', nil
 }
 
 // write appends the status to the local file.
